@@ -149,3 +149,16 @@ Theorem C04_changed_entries : forall s s', pre s -> wstep s s' ->
   2 <= i <= max_cluster s /\ (nthZ (s_fat s) i = 0 \/ used_val (ft s) (dmax s) (nthZ (s_fat s) i) = true).
 Proof. intros s s' Hp H. destruct (wstep_J s s' Hp H) as (_ & _ & _ & _ & _ & [_ C] & _). exact C. Qed.
 Print Assumptions C04_changed_entries.
+
+(** the follower of the model IS the follower of the source: one turn of [chain]'s loop, stated with the definitions regenerated from
+    [PyFat.get_cluster_chain] on every run (refused cluster numbers, followed link values, end marks, everything else raises) *)
+From PyFatV Require Import Proofs.GenChain.
+Theorem C04_follower_from_source : forall s f i,
+  chain_go (S f) (ft s) (dmax s) (vfat s) i =
+  if Gen.chain_refuse (s_p s) (s_h s) (ft s) (lenZ (s_fat s)) i then ([], false) else
+  let v := nthZ (s_fat s) i in
+  let c := Gen.chain_class (s_p s) (s_h s) (ft s) v in
+  if c =? 0 then (let '(r, ok) := chain_go f (ft s) (dmax s) (vfat s) v in (i :: r, ok))
+  else if c =? 1 then ([i], true) else ([], false).
+Proof. exact chain_step_gen. Qed.
+Print Assumptions C04_follower_from_source.
